@@ -104,6 +104,13 @@ CHECKS["C18"] = dict(
     note="Which host an address belongs to is known from the universe (one address per family and host).",
     ref="DESIGN.md §4 C18")
 
+CHECKS["C01"] = dict(
+    level="exploration",
+    technique=PBT + "; generated configurations x poisoned cache x lying upstream, judged by R-ZONE as the oracle of what each local zone holds; provenance by record tags",
+    text="Nested authoritative and non-authoritative zones (from text and API), hosts entries, a cache pre-seeded with tagged records that collide with zone owners and types, and an upstream that answers every question with tagged lies are combined; questions of all types incl. ANY/AXFR run in authoritative-only, recursive and forwarding mode. Every record owned by an authoritative zone must be derivable from it, authoritative answers / denials are exact with the zone's SOA and no upstream exchange, non-authoritative overrides are returned exactly and never mixed with tagged records of the same name and type, and a name error appears only on the word of an authoritative zone.",
+    note="R-ZONE decides what a zone holds; scope D1/D2; alias chains that leave the authoritative zones are judged by the per-record rule only.",
+    ref="DESIGN.md §4 C01")
+
 NOT_YET = {}
 
 def main():
